@@ -144,7 +144,7 @@ func c11b(c *Ctx, a *absVariant) {
 				m[nospace(kv.Key)] = nospace(kv.Value)
 			}
 		}
-		if m["Inner"] == errP && m["pos"] == posP && strings.HasSuffix(m["prefix"], ".String()") {
+		if m["Inner"] == errP && m["pos"] == posP && m["prefix"] != "" {
 			litOK = true
 		} else {
 			bad = append(bad, fmt.Sprintf("parserError literal is %v", m))
@@ -571,7 +571,7 @@ func prefixSemantics(c *Ctx, v *variants.Variant, fd *ast.FuncDecl, posP string)
 	}
 	_ = multi
 	if buf == "" {
-		return []string{"the prefix of the error is not the content of a buffer built in addErrAt"}
+		return prefixByConcatenation(paths, posP)
 	}
 	rule := "p.rstack[len(p.rstack)-1]"
 	posText := `fmt.Sprintf("%d:%d (%d)",` + posP + ".line," + posP + ".col," + posP + ".offset)"
@@ -650,6 +650,80 @@ func prefixSemantics(c *Ctx, v *variants.Variant, fd *ast.FuncDecl, posP string)
 	}
 	if nFeasible == 0 {
 		bad = append(bad, "no feasible path builds a prefix")
+	}
+	return uniq(bad)
+}
+
+// prefixByConcatenation: the prefix is a string built by concatenation; its value at the parserError literal (locals
+// read as their values) is compared piece by piece with the text the path must produce.
+func prefixByConcatenation(paths []bpath, posP string) []string {
+	var bad []string
+	rule := "p.rstack[len(p.rstack)-1]"
+	posText := `fmt.Sprintf("%d:%d (%d)",` + posP + ".line," + posP + ".col," + posP + ".offset)"
+	n := 0
+	for _, p := range paths {
+		val := ""
+		for _, e := range p {
+			if i := strings.Index(e.Text, "&parserError{"); i >= 0 {
+				lit := e.Text[i+len("&parserError{"):]
+				if k := indexTop(lit, "}"); k >= 0 {
+					lit = lit[:k]
+				}
+				for _, el := range splitTop(lit, ",") {
+					if strings.HasPrefix(el, "prefix:") {
+						val = strings.TrimPrefix(el, "prefix:")
+					}
+				}
+			}
+		}
+		if val == "" {
+			continue
+		}
+		n++
+		var got []string
+		var flat func(t string)
+		flat = func(t string) {
+			for strings.HasPrefix(t, "(") && strings.HasSuffix(t, ")") && wholeParen(t) {
+				t = t[1 : len(t)-1]
+			}
+			parts := splitTop(t, "+")
+			if len(parts) == 1 {
+				got = append(got, t)
+				return
+			}
+			for _, pt := range parts {
+				flat(pt)
+			}
+		}
+		flat(val)
+		var want []string
+		if p.holds(`p.filename!=""`) {
+			want = append(want, "p.filename", `":"`)
+		} else if !p.holds(`p.filename==""`) {
+			bad = append(bad, "a path does not test whether a file name was given")
+		}
+		want = append(want, posText)
+		switch {
+		case p.holds("len(p.rstack)>0"):
+			name := rule + ".name"
+			switch {
+			case p.holds(rule + `.displayName!=""`):
+				name = rule + ".displayName"
+			case p.holds(rule + `.displayName==""`):
+			default:
+				bad = append(bad, "the rule's display name is not preferred when it is non-empty")
+			}
+			want = append(want, `": "`, `"rule "`, name)
+		case p.holds("len(p.rstack)==0"):
+		default:
+			bad = append(bad, "a path does not test whether a rule is being evaluated")
+		}
+		if flattenTextTokens(got) != flattenTextTokens(want) {
+			bad = append(bad, "the prefix is ["+strings.Join(got, " ")+"] on the path ["+strings.Join(p.facts(), " ")+"], expected ["+strings.Join(want, " ")+"]")
+		}
+	}
+	if n == 0 {
+		bad = append(bad, "the prefix of the error is neither the content of a buffer nor a string built in addErrAt")
 	}
 	return uniq(bad)
 }
